@@ -17,7 +17,7 @@
 (***************************************************************************)
 EXTENDS Naturals, FiniteSets, Sequences, TLC
 
-CONSTANTS Regs,        \* set of admitted registrations: [id, fam, registrant, proto, port]
+CONSTANTS Regs,        \* set of admitted registrations: [id, fam, phantom, registrant, client, proto, port]
           TU, TA, MaxT, ClearFirst
 
 None == [none |-> TRUE]
@@ -38,9 +38,9 @@ ClientForm(r) == CASE r.registrant = "absent" -> "v6"
                    [] r.registrant \in {"v4", "v4mapped"} -> "v4"
                    [] r.registrant = "v6" -> "v6"
                    [] r.registrant = "nil" -> "invalid"      \* "<nil>": a registration without any registrant address
-ClientKey(r) == IF r.registrant = "absent" THEN "::" ELSE r.registrant
+\* r.client is the registrant's address as the station prints it ("::" when absent)
 Msg(r, op, tmo) == [op |-> op, phantomFam |-> r.fam, clientForm |-> ClientForm(r), proto |-> r.proto, timeout |-> tmo,
-                    tag |-> [proto |-> r.proto, client |-> IF r.fam = "v6" THEN "_" ELSE ClientKey(r), id |-> r.id, port |-> r.port]]
+                    tag |-> [proto |-> r.proto, client |-> IF r.fam = "v6" THEN "_" ELSE r.client, phantom |-> r.phantom, port |-> r.port]]
 ClearMsg == [op |-> "Clear", phantomFam |-> "invalid", clientForm |-> "empty", proto |-> "unk", timeout |-> 0, tag |-> None]
 
 \* ---------------- the detector's rules, in the order of the Rust code ----------------
